@@ -1,0 +1,19 @@
+//go:build verif
+
+package otr
+
+// Hooks for the /verif harness (property C47). Add-only; compiled only with -tags verif.
+
+// VerifEncode runs Conversation.encode with the given FragmentSize.
+func VerifEncode(fragmentSize int, msg []byte) [][]byte {
+	c := &Conversation{FragmentSize: fragmentSize}
+	return c.encode(msg)
+}
+
+// VerifProcessFragment runs processFragment (in must start with "?OTR,", as Receive guarantees).
+func (c *Conversation) VerifProcessFragment(in []byte) ([]byte, error) {
+	return c.processFragment(in)
+}
+
+// VerifFragState returns the fragment counters c.k, c.n.
+func (c *Conversation) VerifFragState() (k, n int) { return c.k, c.n }
